@@ -83,17 +83,32 @@ Theorem C06_displaced_gone_from_cache : forall wb ls r x,
   get_region (fst (set_region (h_cache (reach wb ls)) r)) (r_id x) = None /\ In x (cached (h_cache (reach wb ls))).
 Proof. exact c_displaced_cache. Qed.
 
-(* heartbeats handled one at a time, direct backend: storage never holds a region that is not served, hence a
-   displaced region is gone from storage when the displacing heartbeat returns *)
-Theorem C06_displaced_gone_from_storage_sequential_partial : forall rs,
-  Forall (fun r => wf_region r = true) rs ->
-  forall id x, load_region (h_store (seq_run false rs)) id = Some x -> get_region (h_cache (seq_run false rs)) id <> None.
+(* heartbeats handled one at a time (flushes of the write-back batch anywhere in between), either backend:
+   neither the storage nor the pending write-back batch (`held`) ever has a region that is not served ... *)
+Theorem C06_displaced_gone_from_storage_sequential_partial : forall wb ops,
+  Forall seq_op ops ->
+  forall id, held (h_store (seq_ops wb ops)) id -> get_region (h_cache (seq_ops wb ops)) id <> None.
 Proof. exact c_storage_seq. Qed.
 
-(* with the write-back region storage (the default) the same clause is false *)
+(* ... hence a region displaced by a heartbeat is gone from storage, and from the batch, when that heartbeat returns *)
+Theorem C06_displaced_gone_when_heartbeat_returns_sequential_partial : forall wb ops r x,
+  Forall seq_op ops -> wf_region r = true ->
+  get_region (h_cache (seq_ops wb ops)) (r_id x) <> None ->
+  get_region (h_cache (fst (heartbeat (seq_ops wb ops) r))) (r_id x) = None ->
+  load_region (h_store (fst (heartbeat (seq_ops wb ops) r))) (r_id x) = None /\ ~ held (h_store (fst (heartbeat (seq_ops wb ops) r))) (r_id x).
+Proof. exact c_displaced_storage. Qed.
+
+(* the statement that was refuted before /repo commit e76651c (DeleteRegion left the pending entry in the batch of
+   the region storage, the next flush wrote the displaced region back): now a theorem, for both backends *)
 Definition C06_displaced_gone_from_storage_full : Prop := storage_subset_full.
-Theorem C06_displaced_gone_from_storage_refuted : ~ C06_displaced_gone_from_storage_full.
-Proof. exact storage_subset_refuted_pf. Qed.
+Theorem C06_displaced_gone_from_storage_after_flush : C06_displaced_gone_from_storage_full.
+Proof. exact storage_subset_full_pf. Qed.
+
+(* the old counterexample as a regression case *)
+Example C06_region_storage_regression :
+  let h := fold_left (fun h o => fst (h_step h o)) (map OHb witness_writeback ++ [OFlush]) (h_init true) in
+  load_region (h_store h) 1 = None /\ map fst (s_kv (h_store h)) = [2] /\ map r_id (cached (h_cache h)) = [2].
+Proof. exact witness_writeback_behaves. Qed.
 
 (* non-vacuity: two threads race on overlapping regions; the stale one passes its first check, is rejected under
    the lock; the accepted one displaces a region *)
@@ -118,4 +133,5 @@ Print Assumptions C06_stale_heartbeat_rejected_unchanged_locked.
 Print Assumptions C06_rejected_unchanged.
 Print Assumptions C06_displaced_gone_from_cache.
 Print Assumptions C06_displaced_gone_from_storage_sequential_partial.
-Print Assumptions C06_displaced_gone_from_storage_refuted.
+Print Assumptions C06_displaced_gone_when_heartbeat_returns_sequential_partial.
+Print Assumptions C06_displaced_gone_from_storage_after_flush.
